@@ -129,8 +129,10 @@ Qed.
 Definition copy_kids (k : key) (l : list tree) (f : file) : file := fold_left (fun f c => save_copy k c f) l f.
 Definition put_all (k : key) (pgs : list pgroup) (f : file) : file := fold_left (fun f g => w_pg_put k g f) pgs f.
 
+Definition put_pgs (k : key) (a : attrs) (f : file) : file := match apgs a with [] => f | _ => w_pgs k a f end.
+
 Lemma save_copy_eq p k a l f :
-  save_copy p (Node k a l) f = put_all k (apgs a) (copy_kids k l (w_link p k (w_entity k (with_pgs a []) f))).
+  save_copy p (Node k a l) f = put_pgs k a (put_all k (apgs a) (copy_kids k l (w_link p k (w_entity k (with_pgs a []) f)))).
 Proof. reflexivity. Qed.
 
 Fixpoint copy_list (l : list tree) (ids : list N) : option (list tree * list N) :=
